@@ -46,6 +46,7 @@ def gen(seed, run, sub="direct", tier="quick"):
     t = 0.0
     pos = 0
     align = r.random() < 0.25   # chunk boundaries right after a newline
+    silence = r.choice([0, 0, 0, 0, 0.02, 0.1]) if sub == "direct" else 0
     while pos < len(stream):
         sz = r.randint(1, 256)
         if align:
@@ -53,6 +54,8 @@ def gen(seed, run, sub="direct", tier="quick"):
             if j >= 0:
                 sz = j + 1 - pos
         t += r.choice([0, 0, 0.001, 0.1, 0.26, 0.6])
+        if silence and r.random() < silence:
+            t += r.choice([31.0, 70.0, 400.0])      # the device is silent for a long while
         arrivals.append([round(t, 6), stream[pos:pos + sz].hex()])
         pos += sz
     end = r.choice(["eof", "eof", "eof", "reset"])
@@ -80,14 +83,14 @@ def gen(seed, run, sub="direct", tier="quick"):
     return {
         "second": second, "wfail_at": wfail_at,
         "lane": "c17", "sub": sub, "arrivals": arrivals, "end": end, "end_at": round(t, 6),
-        "draws": draws, "cfg": {"greeting": ""}, "max_steps": 400000,
+        "draws": draws, "cfg": {"greeting": ""}, "max_steps": 400000 + int(80 * t),
         "sched": common.gen_sched(r, "%s/%s/c17" % (seed, run), est_steps=2000,
                                   victims=("read", "main", "send")),
     }
 
 
 def execute(scn, guide=None, keep=False):
-    k, env = common.build(scn, guide, max_time=600.0)
+    k, env = common.build(scn, guide, max_time=600.0 + 2.0 * float(scn.get("end_at", 0)))
     m = shims.repo_modules()
     dev = m["dev"]
     stream = b"".join(bytes.fromhex(h) for _, h in scn["arrivals"])
@@ -109,7 +112,7 @@ def execute(scn, guide=None, keep=False):
         sock = env["port"]
         state["sock1"] = sock
         schedule(sock)
-        cap = 8 * (len(scn["arrivals"]) + stream.count(b"\n") + 8) + 4000
+        cap = 8 * (len(scn["arrivals"]) + stream.count(b"\n") + 8) + 4000 + int(6 * scn.get("end_at", 0))
         while res["calls"] < cap:
             res["calls"] += 1
             if scn.get("wfail_at") == res["calls"]:
